@@ -89,6 +89,29 @@ def close(a, b, rel=1e-9):
 
 
 GSC_KEY = "C16:gsc:identical-rows-split-by-zero-distance-ties"
+GSC_KEY2 = "C16:gsc:relisting-changes-weights-on-derived-distance-ties"
+
+def upgma_tie_free(d, n):
+    """UPGMA over exact fractions (independent of the Lean model): True iff at every merge the minimum distance is
+    attained by exactly one pair, i.e. the tree does not depend on how ties are broken"""
+    cl = {i: 1 for i in range(n)}                       # cluster id -> size
+    D = {(i, j): d[i][j] for i in range(n) for j in range(i + 1, n)}
+    nxt = n
+    while len(cl) > 1:
+        m = min(D.values())
+        best = [k for k, v in D.items() if v == m]
+        if len(best) > 1: return False
+        a, b = best[0]
+        new = {}
+        for c in cl:
+            if c in (a, b): continue
+            da = D[(min(a, c), max(a, c))]; db = D[(min(b, c), max(b, c))]
+            new[(c, nxt)] = (cl[a] * da + cl[b] * db) / (cl[a] + cl[b])
+        D = {k: v for k, v in D.items() if a not in k and b not in k}
+        D.update(new)
+        cl[nxt] = cl[a] + cl[b]; del cl[a]; del cl[b]
+        nxt += 1
+    return True
 
 class C16(Prop):
     id = "C16"
@@ -103,7 +126,7 @@ class C16(Prop):
         "singleLinkage_sizes", "idFilterDigital_spec", "quicksort_permutation", "blosum_formula", "blosum_sum_nonneg",
         "pb_counts_digital", "pb_counts_text", "pb_relisting_digital", "pb_relisting_text", "gsc_sum_nonneg",
         "gsc_identical_rows_fails_at", "blosum_identical_rows", "pairIdMx_spec", "blosum_relisting",
-        "singleLinkage_numbering_not_first_seen")]
+        "singleLinkage_numbering_not_first_seen", "gsc_relisting_fails_at")]
     claimed = True
     technique = ("Lean 4 proof over the exact (Q) instance of a numeric-class-polymorphic executable model of esl_distance/esl_cluster/"
                  "esl_msacluster/esl_quicksort/esl_msaweight/esl_tree(UPGMA) + bit-exact differential correspondence of the Float instance "
@@ -116,7 +139,10 @@ class C16(Prop):
                   "The hand model is tied to the working tree by an exact differential run (weights as bit patterns, thresholds equal to "
                   "attained identities) and property monitors recompute every claim independently on the implementation's output.")
     level_note = ("Theorems are about exact rational arithmetic (L1); the binary64 results differ by rounding (L0, monitors use 1e-9). "
-                  "Model fidelity is checked, not proved. GSC is modelled and compared bit-exactly; its theorems are partial (see assumptions). "
+                  "Model fidelity is checked, not proved. GSC is modelled and compared bit-exactly; proved: >= 0 and sum N for every alignment; "
+                  "'identical rows => identical weights' and 'relisting permutes the weights when no pairwise distances tie' are FALSE for the "
+                  "code (two known findings with Lean-proved witnesses: position-dependent tie-breaking in cluster_engine); they are "
+                  "monitored where UPGMA is tie-free throughout (exact-fraction UPGMA in the monitor). "
                   "consensus_by_sample (>50000 rows) is outside the stated range and not modelled.")
     trusted_base = ["hand model of esl_distance.c (PairId, PairIdMx, DiffMx), esl_cluster.c, esl_msacluster.c, esl_quicksort.c, esl_msaweight.c "
                     "(PB text/digital, BLOSUM, GSC, IDFilter text/adv), esl_tree.c (cluster_engine UPGMA, SetCladesizes), esl_vectorops.c "
@@ -124,6 +150,10 @@ class C16(Prop):
                     "Lean compiler/runtime for the executable driver; Float/Float32 = IEEE binary64/binary32 as in gcc -O1 -ffp-contract=off",
                     "python monitors (props/c16.py) as independent oracle on implementation output"]
     assumptions = ["theorems are over Q: float rounding of the final weights is not covered (L0)",
+                   "GSC: equal weights for identical rows and equivariance under relisting are not theorems (false in general, see known findings); "
+                   "no positive theorem for the tie-free case (monitor only)",
+                   "not covered in the anchored files: esl_dst_*JukesCantor*, *PairMatch*, Average*/Connectivity, esl_tree.c beyond cluster_engine(UPGMA)/SetCladesizes, "
+                   "esl_msaweight.c consensus_by_sample, benchmark/stats drivers",
                    "esl_msa_SequenceSubset is exercised (rows of the filtered MSA compared with the originals) but not modelled",
                    "allocation never fails; nseq <= sampthresh (consensus_by_sample not modelled)",
                    "RF characters are ASCII (esl_abc_CIsGap indexes inmap[] with a signed char)"]
@@ -323,6 +353,11 @@ class C16(Prop):
         c.append(mk("frag-subseq", "text", ["ACDEFGHI", "ACDE----", "ACDEFGHI", "----FGHI", "----FGHI"], std))
         k = mk("gsc-known-finding", "text", ["--DE----", "ACDEFGHI", "---EF---", "---EFGH-", "ACDEFGHI"], ["gsc"])
         k["known_key"] = GSC_KEY
+        c.append(k)
+        w4 = ["CEDAADEADEAA", "EACADADEDAED", "DAEADDEADEDD", "EAADDDAACEDD"]
+        k = mk("gsc-known-finding-relisting", "text", w4, ["gsc", "clear"] +
+               ["row h=" + w4[i].encode().hex() for i in (1, 0, 2, 3)] + ["gsc"])
+        k["known_key"] = GSC_KEY2
         c.append(k)
         am = lambda s: ["ACDEFGHIKLMNPQRSTVWY-BJZOUX*~".index(ch) for ch in s]
         dstd = std + ["pbadv irf=0 ft=%s sf=%s" % (f32bits(0.5), f32bits(0.5)), "pbadv irf=1 ft=%s sf=%s" % (f32bits(0.5), f32bits(0.5)),
@@ -573,10 +608,14 @@ class C16(Prop):
                 w0 = blocks[0]["res"].get(op)
                 if w0 is None: continue
                 name = op.split()[0]
+                derived_tie = False
                 if name == "gsc":
                     a0 = Aln(case["ops"][0].split("=")[1]); a0.rows = r0
                     if not self._tie_free(a0): continue
                     cnt("gsc-perm-tiefree")
+                    n0 = len(r0); mx = a0.pairs()
+                    dm = [[(Fraction(1) - (Fraction(*mx[i][j]) if mx[i][j][1] else 0)) if i != j else Fraction(0) for j in range(n0)] for i in range(n0)]
+                    derived_tie = not upgma_tie_free(dm, n0)
                 # match rows of block 1 to rows of block 0 by content (identical rows have identical weights)
                 first = {}
                 for i, r_ in enumerate(r0): first.setdefault(tuple(r_), i)
@@ -584,6 +623,12 @@ class C16(Prop):
                     j = first.get(tuple(r_))
                     if j is None: break
                     if not close(w1[i], w0[j], 1e-9 if name != "gsc" else 1e-7):
+                        if derived_tie:
+                            # known finding: pairwise distances are distinct but averaged distances tie during UPGMA
+                            cnt("gsc-relisting-differs-under-derived-ties")
+                            if case.get("known_key") == GSC_KEY2:
+                                return Failure("monitor", "gsc: relisting the rows changed the weight of a sequence: %r vs %r" % (w0[j], w1[i]), key=GSC_KEY2)
+                            break
                         return Failure("monitor", "%s: relisting the rows changed the weight of a sequence: %r vs %r" % (name, w0[j], w1[i]))
                 cnt("perm-" + name)
         return None
